@@ -66,11 +66,26 @@ Theorem C23_rejected_identity : forall pyeq (S : Type) sstep sview set q (s : S)
 Proof. exact rejected_identity. Qed.
 Print Assumptions C23_rejected_identity.
 
+(* Every way a queue can enter a Hold — hold[k] = q, hold.k = q, update(mapping),
+   update(pairs) with a re-iterable OR a single-pass iterable (zip, generator, iterator),
+   update(k=q), and Hold(...) with each of these — hands exactly the given items to Hold.inject
+   and is therefore the one abstract step enter_hold = [Reopen pre] (inject: bind key and
+   sub-db, sync), over every store machine.  All history theorems above cover [Enter e pre]
+   at any position. *)
+Theorem C23_entry_points_inject_all : forall (A : Type) e (items : list A), hold_enter e items = items.
+Proof. exact @hold_enter_all. Qed.
+Print Assumptions C23_entry_points_inject_all.
+
+Theorem C23_entry_points_refine_enter_hold : forall pyeq (S : Type) sstep sview set q (s : S) st e pre,
+  gstep pyeq S sstep sview set q s st (Enter e pre) = gstep pyeq S sstep sview set q s st (Reopen pre).
+Proof. exact enter_is_reopen. Qed.
+Print Assumptions C23_entry_points_refine_enter_hold.
+
 (* Non-vacuity: a history with duplicates, pulls, a crash point and a preloaded re-injection,
    for both kinds, satisfies the hypotheses and behaves as stated. *)
 Example C23_example :
   let ops := [(0, Push v_int); (0, Push v_flt); (1, Extend [v_int; v_int; v_flt]); (0, Push v_int);
-              (0, Reopen []); (0, Pull true); (1, Reopen [v_flt]); (1, Remove v_int); (1, Clear);
+              (0, Enter (EUpdatePairs OneShot) []); (0, Pull true); (1, Enter ECtorKw [v_flt]); (1, Remove v_int); (1, Clear);
               (1, Reopen [v_flt; v_flt]); (0, ExtendBad [v_int] [v_flt]); (0, Pull false)]%N in
   Forall (fun qo => wf_op (snd qo)) ops /\
   map sn_mem (qrun bytes_eqb false store0 queues0 ops) =
